@@ -309,6 +309,70 @@ def allfun_reorder_trace(tid, seed, n, order):
 
 
 # ======================= C14: declarations =======================
+def sibling_history(tid, seed, nvars, steps):
+    """Two managers constructed from ONE levels dict (`BDD(levels)`), and the
+    caller keeps the dict too.  The recorded manager B must not notice what
+    happens in its sibling A (swaps, reorderings, sifting, declarations) nor
+    what the caller does with its own dict afterwards."""
+    import dd.autoref as _autoref
+    from harness.adapter import _bdd as _B
+    rng = random.Random(seed)
+    names = ALL_NAMES[:nvars]
+    order = rng.sample(names, nvars)
+    levels = {nm: i for i, nm in enumerate(order)}
+    auto = rng.random() < 0.4
+    if auto:
+        a_ = _autoref.BDD(levels)
+        b_ = _autoref.BDD(levels)
+        A, Bm = a_._bdd, b_._bdd
+    else:
+        A = _B.BDD(levels)
+        Bm = _B.BDD(levels)
+    tr = Trace(tid, names + ['s1'], bdd=Bm, seed=seed, views=True,
+               meta=dict(driver='sibling', seed=seed, autoref=auto))
+    fa = []
+    for _ in range(3):
+        x, y = rng.sample(names, 2)
+        r = A.apply(rng.choice(['and', 'or', 'xor']), A.var(x), A.var(y))
+        A.incref(r)
+        fa.append(r)
+    for nm in names:
+        tr.var(nm)
+    for step in range(steps):
+        c = rng.random()
+        if c < 0.35:
+            tr.apply(rng.choice(BIN_OPS), pick_ref(tr, rng), pick_ref(tr, rng))
+        elif c < 0.45 and tr.held():
+            tr.decref(rng.choice(tr.held()))
+        elif c < 0.5:
+            tr.gc()
+        elif c < 0.65:
+            x = rng.randrange(nvars - 1)
+            tr.call('other', dict(what='sibling_swap', level=x), lambda: (A.swap(x, x + 1), 0)[1])
+        elif c < 0.75:
+            o = list(A.vars)
+            rng.shuffle(o)
+            tr.call('other', dict(what='sibling_reorder', order=o),
+                    lambda: (_B.reorder(A, {v: i for i, v in enumerate(o)}), 0)[1])
+        elif c < 0.8:
+            tr.call('other', dict(what='sibling_sift'), lambda: (_B.reorder(A), 0)[1])
+        elif c < 0.85 and 's1' not in A.vars:
+            tr.call('other', dict(what='sibling_declare'), lambda: (A.add_var('s1'), 0)[1])
+        elif c < 0.9:
+            # the caller re-uses ITS dict for something else
+            def caller():
+                levels['zz_callers_own'] = 99
+                levels.pop('zz_callers_own')
+                return 0
+            tr.call('other', dict(what='caller_touches_its_dict'), caller)
+        else:
+            x = rng.randrange(nvars - 1)
+            tr.swap(x, x + 1)
+    for r in fa:
+        A.decref(r)
+    return tr
+
+
 def gap_level_trace(tid, seed):
     """add_var(new name, level beyond the next bottom level): one call, last in its trace."""
     rng = random.Random(seed)
